@@ -432,3 +432,29 @@ def seqify(x):
     if isinstance(x, list):
         return [seqify(v) for v in x]
     return x
+
+
+def library_raised(exc) -> bool:
+    """True when the exception was raised below a pyoma2 frame (i.e. by the code under test or something it called),
+    False when it comes from the harness itself (then it is a machinery failure, not a verdict)."""
+    import traceback
+
+    frames = traceback.extract_tb(exc.__traceback__)
+    last_harness = max((i for i, f in enumerate(frames) if "/verif/harness/" in f.filename or f.filename.endswith("/verif/check")), default=-1)
+    return any("/pyoma2/" in f.filename for f in frames[last_harness + 1:])
+
+
+def guarded(col, fn, key, what, replay):
+    """run one replay case; an exception raised inside the library is a violation, one raised by the harness propagates"""
+    try:
+        fn()
+    except MachineryFailure:
+        raise
+    except Exception as e:
+        if library_raised(e):
+            import traceback
+
+            where = [(os.path.basename(f.filename), f.lineno) for f in traceback.extract_tb(e.__traceback__) if "/pyoma2/" in f.filename][-2:]
+            col.violation(f"{key}/raised:{type(e).__name__}", f"{what}: the library raised {e!r} at {where}", replay)
+        else:
+            raise
